@@ -185,4 +185,162 @@ theorem sound_run (maxCount : Nat) : ∀ (evs : List Ev) (s : St), Sound s → S
   | [], _, h => h
   | e :: evs, s, h => sound_run maxCount evs (step maxCount s e) (sound_step maxCount s e h)
 
+
+/-! ### invariant 2: a failed storage operation stays visible until the command returns -/
+
+/-- some writer has stopped with an error, or has a failed write in its result stream -/
+def Bad (s : St) : Prop := ∃ w, w < s.n ∧ ((s.wr w).dead = true ∨ none ∈ (s.wr w).stream)
+
+/-- every writer is alive and has nothing queued or unconsumed -/
+def Quiet (s : St) : Prop := ∀ w, w < s.n → (s.wr w).dead = false ∧ (s.wr w).queue = [] ∧ (s.wr w).stream = []
+
+theorem anyDead_iff (s : St) : anyDead s = true ↔ ∃ w, w < s.n ∧ (s.wr w).dead = true := by
+  simp [anyDead, List.any_eq_true, List.mem_range]
+
+theorem allDrained_iff (s : St) : allDrained s = true ↔ ∀ w, w < s.n → (s.wr w).queue = [] ∧ (s.wr w).stream = [] := by
+  simp [allDrained, Wr.drained, List.all_eq_true, List.mem_range, List.isEmpty_iff]
+
+theorem quiet_of (s : St) (h1 : ¬ anyDead s = true) (h2 : allDrained s = true) : Quiet s := by
+  intro w hw
+  rw [anyDead_iff] at h1
+  rw [allDrained_iff] at h2
+  refine ⟨?_, h2 w hw⟩
+  cases hd : (s.wr w).dead
+  · rfl
+  · exact absurd ⟨w, hw, hd⟩ h1
+
+theorem not_bad_of_quiet {s : St} (h : Quiet s) : ¬ Bad s := by
+  rintro ⟨w, hw, hd | hn⟩
+  · have := (h w hw).1; simp [hd] at this
+  · have := (h w hw).2.2; simp [this] at hn
+
+theorem step_noop (maxCount : Nat) (s : St) (e : Ev) (h : s.result = some true) (hq : Quiet s) :
+    step maxCount s e = s := by
+  cases e with
+  | send w p => simp [step, h]
+  | write w ok =>
+    simp only [step]
+    by_cases hw : s.n ≤ w
+    · simp [hw]
+    · have := hq w (by omega)
+      simp [hw, this.2.1]
+  | index w age ok =>
+    simp only [step]
+    by_cases hw : s.n ≤ w
+    · simp [hw]
+    · have := hq w (by omega)
+      simp [hw, this.2.2, this.1]
+  | finish snap a b => simp [step, h]
+
+/-- `Bad` only looks at `n`, `dead` and the `none`s of the streams -/
+theorem bad_congr {s t : St} (hn : t.n = s.n)
+    (hd : ∀ w, (t.wr w).dead = (s.wr w).dead) (hs : ∀ w, none ∈ (t.wr w).stream ↔ none ∈ (s.wr w).stream) :
+    Bad t ↔ Bad s := by
+  unfold Bad
+  constructor
+  · rintro ⟨w, hw, h⟩; exact ⟨w, hn ▸ hw, by rw [← hd, ← hs]; exact h⟩
+  · rintro ⟨w, hw, h⟩; exact ⟨w, hn ▸ hw, by rw [hd, hs]; exact h⟩
+
+structure Report (s : St) : Prop where
+  vis : 0 < s.faults → Bad s ∨ s.result = some false
+  rev : Bad s ∨ s.result = some false → 0 < s.faults
+  okq : s.result = some true → Quiet s
+
+theorem report_init (r : Repo) (n : Nat) : Report (init r n) := by
+  refine ⟨by simp [init], ?_, by simp [init]⟩
+  rintro (⟨w, _, h⟩ | h) <;> simp [init] at h
+
+theorem report_addToIndexer (maxCount : Nat) (s : St) (w : Nat) (p : Pack) (age ok : Bool) (hw : w < s.n)
+    (h : Report s) (hres : s.result ≠ some true) : Report (addToIndexer maxCount s w p age ok) := by
+  unfold addToIndexer
+  split
+  · split
+    · have hb : Bad { s with repo := apply s.repo (.writeIndex { id := s.nextIdx, packs := s.file ++ [idxPackOf p] }), file := [],
+                             count := 0, nextIdx := s.nextIdx + 1 } ↔ Bad s := bad_congr rfl (fun _ => rfl) (fun _ => Iff.rfl)
+      exact ⟨fun hf => by rw [hb]; exact h.vis hf, fun hf => h.rev (by rw [hb] at hf; exact hf), fun hr => absurd hr hres⟩
+    · refine ⟨fun _ => Or.inl ⟨w, hw, Or.inl (by simp)⟩, fun _ => by simp, fun hr => absurd hr hres⟩
+  · have hb : Bad { s with file := s.file ++ [idxPackOf p], count := s.count + p.blobs.length } ↔ Bad s :=
+      bad_congr rfl (fun _ => rfl) (fun _ => Iff.rfl)
+    exact ⟨fun hf => by rw [hb]; exact h.vis hf, fun hf => h.rev (by rw [hb] at hf; exact hf), fun hr => absurd hr hres⟩
+
+theorem report_step (maxCount : Nat) (s : St) (e : Ev) (h : Report s) : Report (step maxCount s e) := by
+  by_cases hres : s.result = some true
+  · rw [step_noop maxCount s e hres (h.okq hres)]; exact h
+  cases e with
+  | send w p =>
+    simp only [step]
+    split
+    · exact h
+    · have hb : Bad (setWr { s with sent := p :: s.sent } w { s.wr w with queue := (s.wr w).queue ++ [p] }) ↔ Bad s := by
+        refine bad_congr (s := s) rfl ?_ ?_
+        · intro v; simp only [setWr_wr]; split <;> simp_all
+        · intro v; simp only [setWr_wr]; split <;> simp_all
+      exact ⟨fun hf => by rw [hb]; exact h.vis hf, fun hf => h.rev (by rw [hb] at hf; exact hf), fun hr => absurd hr hres⟩
+  | write w ok =>
+    simp only [step]
+    split
+    · exact h
+    · rename_i hw
+      have hw : w < s.n := by simpa using hw
+      split
+      · exact h
+      · rename_i p rest hq
+        split
+        · have hb : Bad (setWr { s with repo := apply s.repo (.writePack p) } w
+              { s.wr w with queue := rest, stream := (s.wr w).stream ++ [some p] }) ↔ Bad s := by
+            refine bad_congr (s := s) rfl ?_ ?_
+            · intro v; simp only [setWr_wr]; split <;> simp_all
+            · intro v; simp only [setWr_wr]; split <;> simp_all
+          exact ⟨fun hf => by rw [hb]; exact h.vis hf, fun hf => h.rev (by rw [hb] at hf; exact hf), fun hr => absurd hr hres⟩
+        · refine ⟨fun _ => Or.inl ⟨w, hw, Or.inr (by simp)⟩, fun _ => by simp, fun hr => absurd hr hres⟩
+  | index w age ok =>
+    simp only [step]
+    split
+    · exact h
+    · rename_i hw
+      simp only [Bool.or_eq_true, decide_eq_true_eq, not_or, Nat.not_le] at hw
+      split
+      · exact h
+      · rename_i rest hq
+        have hbad : Bad s := ⟨w, hw.1, Or.inr (by rw [hq]; exact List.mem_cons_self)⟩
+        refine ⟨fun _ => Or.inl ⟨w, hw.1, Or.inl (by simp)⟩, fun _ => h.rev (Or.inl hbad), fun hr => absurd hr hres⟩
+      · rename_i p rest hq
+        refine report_addToIndexer maxCount (setWr s w _) w p age ok hw.1 ?_ hres
+        have hb : Bad (setWr s w { s.wr w with stream := rest }) ↔ Bad s := by
+          refine bad_congr (s := s) rfl ?_ ?_
+          · intro v; simp only [setWr_wr]; split <;> simp_all
+          · intro v; simp only [setWr_wr]; split
+            · subst_vars; simp [hq]
+            · rfl
+        exact ⟨fun hf => by rw [hb]; exact h.vis hf, fun hf => h.rev (by rw [hb] at hf; exact hf), fun hr => absurd hr hres⟩
+  | finish snap okIdx okSnap =>
+    simp only [step]
+    split
+    · exact h
+    · split
+      · rename_i hd
+        rw [anyDead_iff] at hd
+        obtain ⟨w, hw, hd⟩ := hd
+        exact ⟨fun _ => Or.inr rfl, fun _ => h.rev (Or.inl ⟨w, hw, Or.inl hd⟩), by simp⟩
+      · split
+        · exact h
+        · rename_i hnone hd hdr
+          have hq : Quiet s := quiet_of s hd (by simpa using hdr)
+          have hnone : s.result = none := by simpa using hnone
+          split
+          · exact ⟨fun _ => Or.inr rfl, fun _ => by simp, by simp⟩
+          · split
+            · refine ⟨fun hf => ?_, ?_, fun _ => hq⟩
+              · rcases h.vis hf with hb | hr
+                · exact absurd hb (not_bad_of_quiet hq)
+                · simp [hnone] at hr
+              · rintro (hb | hr)
+                · exact absurd ((bad_congr (s := s) rfl (fun _ => rfl) (fun _ => Iff.rfl)).mp hb) (not_bad_of_quiet hq)
+                · simp at hr
+            · exact ⟨fun _ => Or.inr rfl, fun _ => by simp, by simp⟩
+
+theorem report_run (maxCount : Nat) : ∀ (evs : List Ev) (s : St), Report s → Report (run maxCount s evs)
+  | [], _, h => h
+  | e :: evs, s, h => report_run maxCount evs (step maxCount s e) (report_step maxCount s e h)
+
 end Rustic.PackerActor
